@@ -87,6 +87,8 @@ def spell_value(r, v, style):
         return '%%position(l0, %s)' % ('(%d)' % v)
     if style == 'const':
         return 'VALK'
+    if style == 'char' and 33 <= v <= 126 and v not in (39, 92, 35):
+        return "'%s'" % chr(v)
     if style == 'arith':
         return '%d + %d' % (v - 7, 7) if r.random() < 0.5 else '(%d) * 1' % v
     return fmt_int(r, v)
@@ -209,7 +211,7 @@ def make_scenario(spec, seed, idx):
                 vals = [r.randint(0, 100)] * r.randint(0, 2) + [v] + [r.randint(0, 100)] * r.randint(0, 2)
             item = {'op': 'seq', 'kw': kw, 'values': vals}
         elif d == 'short':
-            item = {'op': 'short', 'kw': kw, 'value': v, 'style': r.choice(('lit', 'lit', 'position', 'position-paren', 'const', 'arith'))}
+            item = {'op': 'short', 'kw': kw, 'value': v, 'style': r.choice(('lit', 'lit', 'position', 'position-paren', 'const', 'arith', 'char'))}
         else:
             item = {'op': 'pack', 'fmt': kw, 'value': v, 'style': r.choice(('lit', 'lit', 'position', 'position-paren', 'const', 'arith'))}
         if spec.get('st') and 'style' in item:
